@@ -815,7 +815,14 @@ func (e *Engine) call(fi *fnInfo, st *State, in *ssa.Call) []*State {
 	}
 	if (callee.Name() == "NewErrorLexer" || callee.Name() == "NewError") && core.RelPkg(fnPkg(callee)) == "parse" {
 		// reads Bytes()/Offset() of the cursor only (its body is checked by R-ERRCTOR)
-		setRes(st, intVal(1))
+		ev := intVal(1)
+		ev.emsg = "?"
+		for _, a := range cc.Args {
+			if k, ok := a.(*ssa.Const); ok && k.Value != nil && k.Value.Kind() == constant.String {
+				ev.emsg = constant.StringVal(k.Value)
+			}
+		}
+		setRes(st, ev)
 		return []*State{st}
 	}
 	// opaque callee
@@ -863,6 +870,52 @@ func (e *Engine) call(fi *fnInfo, st *State, in *ssa.Call) []*State {
 	}
 	if outs := e.intPredicateCall(st, in, callee); outs != nil {
 		return outs
+	}
+	if tt := e.byteTupleFunction(callee); tt != nil && len(cc.Args) == 1 {
+		// several results that depend on one byte: one state per distinct result tuple among the bytes still possible,
+		// so that the results stay correlated with each other and with the byte
+		set := e.eval(st, cc.Args[0]).byteSet()
+		groups := map[string]ByteSet{}
+		rep := map[string][]int64{}
+		var order []string
+		for _, b := range set.members() {
+			k := fmt.Sprint(tt[b])
+			if _, seen := groups[k]; !seen {
+				order = append(order, k)
+				rep[k] = tt[b]
+			}
+			groups[k] = groups[k].or(bsOf(b))
+		}
+		if len(order) >= 1 && len(order) <= 12 {
+			var outs []*State
+			for i, k := range order {
+				s := st
+				if i < len(order)-1 {
+					s = st.clone()
+				}
+				e.refineByteVal(s, cc.Args[0], groups[k])
+				if s.dead {
+					continue
+				}
+				tup := AbsVal{k: vTuple}
+				for _, x := range rep[k] {
+					tup.elems = append(tup.elems, intVal(x))
+				}
+				s.setv(in, tup)
+				outs = append(outs, s)
+			}
+			return outs
+		}
+	}
+	if t := e.byteFunction(callee); t != nil && len(cc.Args) == 1 {
+		// a pure integer function of one byte: a per-byte table indexed by the argument
+		set := e.eval(st, cc.Args[0]).byteSet()
+		if v := tableValues(t, set); v.k == vInt && len(v.ints) == 1 {
+			setRes(st, v)
+		} else {
+			setRes(st, AbsVal{k: vTabInt, itable: t, tabX: cc.Args[0], mask: -1})
+		}
+		return []*State{st}
 	}
 	switch callee.Name() {
 	case "NewErrorLexer", "NewError":
@@ -1138,8 +1191,12 @@ func (e *Engine) atKind(fn *ssa.Function) int {
 		return kind
 	}
 	// l.at(b ...byte), l.at(b []byte), or the same as a plain function handed the cursor: at(r *parse.Input, b ...byte)
+	// ... optionally with an offset in front of the bytes: l.at(n int, b ...byte) compares at n, n+1, ...
+	offParam := -1
 	switch {
 	case sig.Recv() != nil && sig.Params().Len() == 1:
+	case sig.Recv() != nil && sig.Params().Len() == 2 && isPlainInt(sig.Params().At(0).Type()):
+		offParam = 1 // index into fn.Params (receiver first)
 	case sig.Recv() == nil && sig.Params().Len() == 2:
 		if tp, ok := modTypePath(sig.Params().At(0).Type()); !ok || tp != "parse.Input" {
 			return kind
@@ -1188,9 +1245,17 @@ func (e *Engine) atKind(fn *ssa.Function) int {
 	if peeks == 0 || rangeIdx == nil {
 		return kind
 	}
-	// the index must be a counter phi starting at -1/0 with stride 1 bounded by len(b)
+	// the index must be a counter phi starting at -1/0 with stride 1 bounded by len(b) (plus the offset parameter)
 	l := linOf(rangeIdx)
-	if len(l.T) != 1 {
+	if offParam >= 0 {
+		if l.T[fn.Params[offParam].Name()] != 1 || len(l.T) != 2 {
+			return kind
+		}
+		if e.atOff == nil {
+			e.atOff = map[*ssa.Function]int{}
+		}
+		e.atOff[fn] = offParam
+	} else if len(l.T) != 1 {
 		return kind
 	}
 	kind = 1
@@ -1205,6 +1270,54 @@ func (e *Engine) atCall(fi *fnInfo, st *State, in *ssa.Call, callee *ssa.Functio
 	label := fmt.Sprintf("%s %s(...) #%s", fnLabel(fi.fn), callee.Name(), e.prog.Position(in.Pos()))
 	_ = label
 	key := fmt.Sprintf("%s call %s", fnLabel(fi.fn), callee.Name())
+	// the offset the comparison starts at: 0, a constant, or a look-ahead index
+	off := 0
+	var offIdx ssa.Value
+	if oi, has := e.atOff[callee]; has && oi < len(in.Call.Args) {
+		ov := e.eval(st, in.Call.Args[oi])
+		if c, isC := ov.constInt(); isC && c >= 0 {
+			off = int(c)
+			e.check(st, "R-CURSOR", key+" (offset within the input)", in.Pos(), off <= st.E, fmt.Sprintf("the comparison starts at offset %d with only %d byte(s) proven before the terminator", off, st.E))
+		} else {
+			if ov.k == vInt && len(ov.ints) > 1 {
+				ov = st.idxOfInts(ov)
+				st.setv(in.Call.Args[oi], ov)
+			}
+			if ov.k != vIdx {
+				e.undecided(st, "R-CURSOR", key+" (offset)", in.Pos(), "the offset of the byte-sequence helper is neither a constant nor a look-ahead index")
+				st.setv(in, top)
+				return []*State{st}
+			}
+			offIdx = in.Call.Args[oi]
+			fwd := ov.ilo >= 0 && ov.safe >= 0
+			e.check(st, "R-CURSOR", key+" (offset within the input)", in.Pos(), fwd, fmt.Sprintf("the comparison starts at a look-ahead index in [%s,%s] that was not established to be within the input", infs(ov.ilo), infs(ov.ihi)))
+		}
+	}
+	if offIdx != nil {
+		// at a look-ahead index: a match of n non-NUL constants proves n more bytes of input in front of the index
+		t, f := st.clone(), st
+		if arg.k == vArr {
+			n, nonNul := 0, true
+			for i := arg.alo; i < arg.ahi; i++ {
+				if arg.arr.elems[i].byteSet().has(0) {
+					nonNul = false
+				}
+				n++
+			}
+			if iv, ok := t.getv(offIdx); ok && iv.k == vIdx && nonNul && iv.safe < n {
+				iv.safe = n
+				t.setv(offIdx, iv)
+			}
+			e.check(st, "R-CURSOR", key+" (constant bytes are non-NUL)", in.Pos(), nonNul, "a NUL byte in the compared sequence lets the helper peek beyond the terminator")
+		} else if arg.k == kFieldSlice {
+			e.assume = append(e.assume, "A-TMPL: template delimiters passed to NewTemplateLexer contain no NUL byte (the six exported dialects are checked by T-TMPL)")
+		} else {
+			e.undecided(st, "R-CURSOR", key+" (argument shape)", in.Pos(), "argument of the byte-sequence helper is neither a literal byte list nor a lexer field")
+		}
+		t.setv(in, boolVal(true))
+		f.setv(in, boolVal(false))
+		return []*State{t, f}
+	}
 	switch arg.k {
 	case vArr:
 		var want []ByteSet
@@ -1225,14 +1338,14 @@ func (e *Engine) atCall(fi *fnInfo, st *State, in *ssa.Call, callee *ssa.Functio
 		e.check(st, "R-CURSOR", key+" (constant bytes are non-NUL)", in.Pos(), safe, "a NUL byte in the compared sequence lets the helper peek beyond the terminator")
 		t, f := st.clone(), st
 		for i, w := range want {
-			t.refineByte(i, w)
+			t.refineByte(off+i, w)
 			if t.dead {
 				break
 			}
 		}
 		if len(want) == 1 {
 			if b, ok := want[0].single(); ok {
-				f.refineByte(0, bsOf(b).not())
+				f.refineByte(off, bsOf(b).not())
 			}
 		}
 		var outs []*State
